@@ -8,6 +8,7 @@
 # confirmed when it was stored) and the lines go to seeded/MATRIX.txt.
 # CHECKS_LIST=<file of lines "<name> <check>..."> restricts the run to the named changes and, for each, to the named
 # checks (the cheap regression form: tools/seeded_list.txt is generated from the meta.json files).
+# SKIP_SUITE=1: do not re-run the repository suite for mutants/ (regression runs).
 # VERIF_WALL_CAP_S (default here: 600) bounds a check that a change makes hang; it is then listed as broken.
 # The scratch worktree and its build output are removed at the end.
 V="$(cd "$(dirname "$0")/.." && pwd)"   # works from a snapshot of /verif as well (vp run)
@@ -37,7 +38,7 @@ for P in $LIST; do
     checks=$(awk -v n="$name" '$1==n {$1=""; print}' "$CHECKS_LIST"); [ -z "$checks" ] && continue
   fi
   ( cd $SCR && git checkout -q -- . && git apply $V/$P ) || { echo "$name cannot-apply" | tee -a $OUT; continue; }
-  if [ -n "${SEEDED:-}" ]; then t=confirmed-earlier; elif ( cd $SCR && CARGO_TARGET_DIR=$V/target/selftest${SHARD:-} cargo test --workspace --no-fail-fast --offline >$V/target/selftest${SHARD:-}.log 2>&1 ); then t=pass; else t=FAIL; fi
+  if [ -n "${SEEDED:-}" ]; then t=confirmed-earlier; elif [ -n "${SKIP_SUITE:-}" ]; then t=not-rerun; elif ( cd $SCR && CARGO_TARGET_DIR=$V/target/selftest${SHARD:-} cargo test --workspace --no-fail-fast --offline >$V/target/selftest${SHARD:-}.log 2>&1 ); then t=pass; else t=FAIL; fi
   fired=""; broken=""
   for c in $checks; do
     VERIF_EVIDENCE_DIR=$SCR-evidence ./check $c --tier quick >$V/target/selftest-check${SHARD:-}.log 2>&1; rc=$?
